@@ -64,6 +64,18 @@ type Node struct {
 	cancel context.CancelFunc
 }
 
+// KeepEventsNone in Config.KeepEvents stands for the engine's KeepEventsForHeights == 0 (keep events for no height beyond what finality
+// requires; legal, the zero value of ChainConfig). 0 itself means "harness default" in Config, hence the sentinel.
+const KeepEventsNone = -2
+
+// EngineKeepEvents is the value handed to the engine for a Config.KeepEvents.
+func EngineKeepEvents(k int) int {
+	if k == KeepEventsNone {
+		return 0
+	}
+	return k
+}
+
 func (c *Config) defaults() {
 	if c.BlockTime == 0 {
 		c.BlockTime = 10000
@@ -192,7 +204,7 @@ func (n *Node) open() error {
 	}
 	n.Slot = &SlotCalc{GenesisTS: n.Cfg.GenesisTS, BlockTime: n.Cfg.BlockTime}
 	n.engSlot = validator.NewBlockSlot(n.Cfg.GenesisTS, n.Cfg.BlockTime)
-	n.Chain = blockchain.NewChain(&blockchain.ChainConfig{ChainID: ChainID, MaxTransactionsLength: n.Cfg.MaxTxLength, MaxBlockCache: n.Cfg.MaxBlockCache, KeepEventsForHeights: n.Cfg.KeepEvents})
+	n.Chain = blockchain.NewChain(&blockchain.ChainConfig{ChainID: ChainID, MaxTransactionsLength: n.Cfg.MaxTxLength, MaxBlockCache: n.Cfg.MaxBlockCache, KeepEventsForHeights: EngineKeepEvents(n.Cfg.KeepEvents)})
 	n.Chain.Init(n.Genesis, n.DB)
 	pc := &p2p.Config{ChainID: ChainID, Version: "1.0", MinNumOfConnections: 1, MaxNumOfConnections: 20}
 	if n.Cfg.ListenAddr != "" {
